@@ -304,7 +304,7 @@ def run(ctx) -> None:
                 ctx.violation("C16/keyboard-device/" + sig.split("/", 1)[1], what, w2)
     # device level: the LCD controllers saved and reloaded inside command/data/read histories
     from . import c15
-    lcd_ev = [("w", a, v) for a in (0x2000, 0x2002, 0x2008, 0x200A, 0x2004, 0xA00A) for v in (0x3F, 0x3E, 0x41, 0xB9, 0xC5, 0xA5)] + \
+    lcd_ev = [("w", a, v) for a in (0x2000, 0x2002, 0x2008, 0x200A, 0x2004, 0xA00A) for v in (0x3F, 0x3E, 0x41, 0xB9, 0xC5, 0xE5, 0xFF, 0xA5)] + \
              [("r", a, 0) for a in (0x2009, 0x200B, 0x2005, 0x2007, 0x2001)] + [("s", 0, 0)]
     lres = pmap(c15._bfs, [(c, lcd_ev, 4 if ctx.thorough else 3) for c in chunks(lcd_ev, n)])
     wr = c15._wrap_runs()
